@@ -15,3 +15,55 @@ def heat_T(P, dim, steady):
     if not steady:
         T = T * tm.fn('cos', g('D_t') * TT)
     return T
+
+
+# Roy's general form (doxygen/solutions/euler.page eq. manufactured01, cns.page): which of sin/cos each
+# coordinate term uses per primitive variable (euler.page eqs manufactured_1d/2d/3d).  The temporal
+# completion phi_t f(a_phit pi t/L) of the transient solutions follows the same table ('t' column).
+ROY = {
+    'rho': dict(x='sin', y='cos', z='sin', t='sin'),
+    'u': dict(x='sin', y='cos', z='cos', t='cos'),
+    'v': dict(x='cos', y='sin', z='sin', t='sin'),
+    'w': dict(x='sin', y='sin', z='cos', t='cos'),
+    'p': dict(x='cos', y='sin', z='cos', t='cos'),
+}
+
+
+def roy(P, phi, coords):
+    """phi_0 + sum_c phi_c f_c(a_phic pi c / L), coords e.g. 'xy' or 'xyzt'"""
+    from pde import COORD
+    r = P[phi + '_0']
+    for c in coords:
+        r = r + P['%s_%s' % (phi, c)] * tm.fn(ROY[phi][c], P['a_%s%s' % (phi, c)] * tm.PI * COORD[c] / P['L'])
+    return r
+
+
+def axi_euler_fields(P, transient):
+    """axisymmetric Euler (r,z[,t]); radial velocity vanishes on the axis"""
+    from pde import COORD
+    r, z, t = COORD['r'], COORD['z'], COORD['t']
+    pi, L = tm.PI, P['L']
+    f = {}
+    f['rho'] = P['rho_0'] + P['rho_r'] * tm.fn('cos', P['a_rhor'] * pi * r / L) + P['rho_z'] * tm.fn('sin', P['a_rhoz'] * pi * z / L)
+    f['p'] = P['p_0'] + P['p_r'] * tm.fn('sin', P['a_pr'] * pi * r / L) + P['p_z'] * tm.fn('cos', P['a_pz'] * pi * z / L)
+    f['w'] = P['w_0'] + P['w_r'] * tm.fn('cos', P['a_wr'] * pi * r / L) + P['w_z'] * tm.fn('sin', P['a_wz'] * pi * z / L)
+    if not transient:
+        f['u'] = P['u_r'] * P['u_z'] * (tm.fn('cos', P['a_ur'] * pi * r / L) - 1) * tm.fn('sin', P['a_uz'] * pi * z / L)
+    else:
+        f['rho'] = f['rho'] + P['rho_t'] * tm.fn('sin', P['a_rhot'] * pi * t / L)
+        f['p'] = f['p'] + P['p_t'] * tm.fn('cos', P['a_pt'] * pi * t / L)
+        f['w'] = f['w'] + P['w_t'] * tm.fn('cos', P['a_wt'] * pi * t / L)
+        f['u'] = P['u_r'] * (tm.fn('cos', P['a_ur'] * pi * r / L) - 1) * (P['u_z'] * tm.fn('sin', P['a_uz'] * pi * z / L) + P['u_t'] * tm.fn('cos', P['a_ut'] * pi * t / L))
+    return f
+
+
+def axi_cns_fields(P):
+    from pde import COORD
+    r, z = COORD['r'], COORD['z']
+    pi, L = tm.PI, P['L']
+    f = {}
+    f['u'] = P['u_1'] * (tm.fn('cos', P['a_ur'] * pi * r / L) - 1) * tm.fn('sin', P['a_uz'] * pi * z / L)
+    f['w'] = P['w_0'] + P['w_1'] * tm.fn('cos', P['a_wr'] * pi * r / L) * tm.fn('sin', P['a_wz'] * pi * z / L)
+    f['p'] = P['p_0'] + P['p_1'] * tm.fn('sin', P['a_pr'] * pi * r / L) * tm.fn('cos', P['a_pz'] * pi * z / L)
+    f['rho'] = P['rho_0'] + P['rho_1'] * tm.fn('cos', P['a_rhor'] * pi * r / L) * tm.fn('sin', P['a_rhoz'] * pi * z / L)
+    return f
